@@ -562,7 +562,9 @@ def run(tier, logdir):
                 recs, I, cap0 = inductive(lim, rate, tmo)
                 queries += recs
                 queries += staleness(lim, rate, cap0, tmo)
-                ks = [lim.B + 2] if tier == "quick" else [lim.B + 2, lim.B + 3, lim.B + 4]
+                core = (0, 1, 2, 3, 7, 15, 20, 30, 60, 100, 144, 200, 254, 255)
+                # thorough: every rate 1..=255 gets the B+2 unrolling, the core rates also B+3 and B+4 (765 deep unrollings took > 100 min)
+                ks = [lim.B + 2] if (tier == "quick" or rate not in core) else [lim.B + 2, lim.B + 3, lim.B + 4]
                 if tier == "quick" and rate not in (0, 20, 255, 1):
                     ks = []
                 for k in ks:
@@ -627,4 +629,4 @@ def run(tier, logdir):
         queries.append({"name": "encoding", "verdict": "BROKEN", "why": "%s: %s" % (type(e).__name__, e), "wall_s": 0})
         enc = set()
     return {"queries": queries, "assumptions": assumptions, "encodes": sorted(enc),
-            "bounds": ["engine M: rates %s; unrolling k=B+2%s; instants < 2^62 ns" % ("1..=255" if tier == "thorough" else "core set + 6 seed-picked", "..B+4" if tier == "thorough" else "")]}
+            "bounds": ["engine M: rates %s; unrolling k=B+2%s; instants < 2^62 ns" % ("1..=255" if tier == "thorough" else "core set + 6 seed-picked", " (B+3, B+4 for the 13 core rates)" if tier == "thorough" else "")]}
